@@ -3,6 +3,7 @@ package pluginw
 import (
 	"errors"
 	"fmt"
+	"io"
 	"os"
 	"path/filepath"
 	"runtime/debug"
@@ -40,6 +41,7 @@ type Scenario struct {
 	// C17
 	FailModule int    // index of the file that fails (-1: none)
 	FailKind   string // "gen-reserved", "gen-goname" or "compile"
+	Conflict   [2]int // C16: 1-based indices of two plugins that name one file (zero: none)
 	RootRel    string // explicit thrift root relative to the sandbox ("" with ExplicitRoot=false: automatic)
 	// simulator knobs
 	Strat    simrt.Strategy
@@ -107,6 +109,7 @@ func genScript(name string, faultP float64, idx int) *Script {
 		s.ByteWrites = simrt.Flip("plugin.byte-writes", 0.2)
 	} else {
 		s.GenErr = simrt.Flip("plugin.gen-err", faultP/2)
+		s.Channel = simrt.ChoiceBias("plugin.channel", 4, 0.5)
 	}
 	s.Helper = simrt.Flip("plugin.leaves-helper-behind", 0.05)
 	if simrt.Flip("plugin.exit-status", faultP/4) {
@@ -254,7 +257,18 @@ func genScenario(o world.Opts) *Scenario {
 	} else if simrt.Flip("c16.host-fault", 0.2) {
 		// the host itself has a reason to fail, next to whatever the plugins do: every
 		// plugin it has started by then must still be told goodbye and reaped
-		switch simrt.Choice("c16.host-fault-kind", 3) {
+		switch simrt.Choice("c16.host-fault-kind", 4) {
+		case 3:
+			// two plugins answer with one file: the host refuses the second answer while the
+			// others are still being collected - and must still end every plugin it started
+			if np >= 2 {
+				a := simrt.Choice("c16.conflict-a", np-1)
+				b := a + 1 + simrt.Choice("c16.conflict-b", np-1-a)
+				shared := GenFile{Path: "plug_shared/same.go", Content: "package plug\n"}
+				sc.Plugins[a].Files = append(sc.Plugins[a].Files, shared)
+				sc.Plugins[b].Files = append([]GenFile{shared}, sc.Plugins[b].Files...)
+				sc.Conflict = [2]int{a + 1, b + 1}
+			}
 		case 0:
 			genFailModule(sc)
 		case 1:
@@ -600,15 +614,34 @@ func RunOne(cfg simrt.Config, o world.Opts) *world.Result {
 	return res
 }
 
+var pChannel = []simrt.Probe{simrt.NewProbe("conforming.reader-and-writer-set"), simrt.NewProbe("conforming.neither-set"),
+	simrt.NewProbe("conforming.only-reader-set"), simrt.NewProbe("conforming.only-writer-set")}
+
 // conformingMain runs the real plugin library with a scripted generator.
 func conformingMain(ps *Script, log *PlugLog) func(p *simrt.Process) int {
 	return func(p *simrt.Process) int {
 		log.Started = true
-		pl := &plugin.Plugin{
-			Name:   ps.Name,
-			Reader: newSniffReader(p.Stdin, log),
-			Writer: newSniffWriter(p.Stdout, log),
+		// the plugin's own channel, where it has one, else its standard streams; what it
+		// leaves unset is the library's default: the standard streams of this process
+		var in io.Reader = p.Stdin
+		var out io.Writer = p.Stdout
+		if ps.AltIn != nil {
+			in = ps.AltIn
+			defer ps.AltIn.Close()
 		}
+		if ps.AltOut != nil {
+			out = ps.AltOut
+			defer ps.AltOut.Close()
+		}
+		p.StdinView, p.StdoutView = newSniffReader(p.Stdin, log), newSniffWriter(p.Stdout, log)
+		pl := &plugin.Plugin{Name: ps.Name}
+		if ps.Channel == 0 || ps.Channel == 2 {
+			pl.Reader = newSniffReader(in, log)
+		}
+		if ps.Channel == 0 || ps.Channel == 3 {
+			pl.Writer = newSniffWriter(out, log)
+		}
+		pChannel[ps.Channel].Hit()
 		if !ps.NoSG {
 			pl.ServiceGenerator = &scriptedGenerator{ps: ps, log: log}
 		}
